@@ -421,6 +421,9 @@ def run_loop(eng, node, st, head, body_prefix=None, extra_havoc=(), qual_ord=Non
     # 2. havoc
     h = st.fork()
     names = assigned_names(node.body) | set(extra_havoc)
+    for n, ty in spec.locals_types.items():
+        if n not in h.env:
+            h.env[n] = SV(ty, S.fresh("lv_" + n, S.sort_of(ty)))
     for n in names:
         if n in h.env:
             havoc_local(eng, h, n)
